@@ -1304,3 +1304,114 @@ Proof.
   - intros c h Hh. cbn [encode_view]. destruct (Z.ltb_spec (hd 0 h) 0); [lia | reflexivity].
   - intro c. apply mclass_missing_enc.
 Qed.
+
+(* ---------- make_pairwise: every generated pair is (an entry of list 1, an entry of list 2) ---------- *)
+Definition pw_entry_ok (m1 m2 : list Z) (e : pkey * (Z * Z)) : Prop :=
+  let '(k, (i1, i2)) := e in
+  0 <= i1 < zlen m1 /\ 0 <= i2 < zlen m2 /\
+  k = (Z.min (znth i1 m1 0) (znth i2 m2 0), Z.max (znth i1 m1 0) (znth i2 m2 0)).
+
+Lemma pmap_insert_in k v m e : In e (pmap_insert k v m) -> e = (k, v) \/ In e m.
+Proof.
+  induction m as [|[k' v'] r IH]; cbn [pmap_insert]; intros H.
+  - destruct H as [H|[]]; left; symmetry; exact H.
+  - destruct (pkey_eqb k k'); [right; exact H|].
+    destruct (pkey_ltb k k').
+    + destruct H as [H|H]; [left; symmetry; exact H|right; exact H].
+    + destruct H as [H|H]; [right; left; exact H|]. destruct (IH H) as [E|E]; [left; exact E|right; right; exact E].
+Qed.
+
+Lemma pmap_insert_keeps k v m e : In e m -> In e (pmap_insert k v m).
+Proof.
+  induction m as [|[k' v'] r IH]; cbn [pmap_insert]; intros H; [destruct H|].
+  destruct (pkey_eqb k k'); [exact H|]. destruct (pkey_ltb k k'); [right; exact H|].
+  destruct H as [H|H]; [left; exact H|right; apply IH; exact H].
+Qed.
+
+Lemma pmap_insert_has_key k v m : exists v', In (k, v') (pmap_insert k v m).
+Proof.
+  induction m as [|[k' v'] r IH]; cbn [pmap_insert]; [exists v; left; reflexivity|].
+  destruct (pkey_eqb k k') eqn:E.
+  - unfold pkey_eqb in E. apply andb_true_iff in E. destruct E as [E1 E2]. apply Z.eqb_eq in E1, E2.
+    exists v'. left. destruct k, k'; cbn in *; subst; reflexivity.
+  - destruct (pkey_ltb k k'); [exists v; left; reflexivity|]. destruct IH as [w Hw]. exists w. right. exact Hw.
+Qed.
+
+Lemma zseq_in n i : In i (zseq n) <-> 0 <= i < n.
+Proof.
+  unfold zseq. rewrite in_map_iff. split.
+  - intros (k & <- & Hk). apply in_seq in Hk. lia.
+  - intros H. exists (Z.to_nat i). split; [lia|]. apply in_seq. lia.
+Qed.
+
+Definition pw_step (m1 m2 : list Z) (acc : list (pkey * (Z * Z))) (p : Z * Z) :=
+  let '(i1, i2) := p in
+  let f1 := znth i1 m1 0 in let f2 := znth i2 m2 0 in
+  pmap_insert (src_pair_key_lo f1 f2, src_pair_key_hi f1 f2) (src_pair_value_first i1 i2, src_pair_value_second i1 i2) acc.
+
+Lemma pw_fold_ok m1 m2 pairs : forall acc,
+  Forall (fun p => 0 <= fst p < zlen m1 /\ 0 <= snd p < zlen m2) pairs ->
+  Forall (pw_entry_ok m1 m2) acc ->
+  Forall (pw_entry_ok m1 m2) (fold_left (pw_step m1 m2) pairs acc).
+Proof.
+  induction pairs as [|[i1 i2] ps IH]; intros acc Hp Ha; cbn [fold_left]; [exact Ha|].
+  inversion Hp as [|? ? [H1 H2] Hp']; subst. cbn [fst snd] in H1, H2. apply IH; [exact Hp'|].
+  apply Forall_forall. intros e He. unfold pw_step in He. apply pmap_insert_in in He. destruct He as [->|He].
+  - unfold pw_entry_ok, src_pair_value_first, src_pair_value_second, src_pair_key_lo, src_pair_key_hi. repeat split; lia.
+  - rewrite Forall_forall in Ha. apply Ha. exact He.
+Qed.
+
+Lemma pw_fold_has_key m1 m2 pairs : forall acc i1 i2,
+  (In (i1, i2) pairs \/ exists v, In ((Z.min (znth i1 m1 0) (znth i2 m2 0), Z.max (znth i1 m1 0) (znth i2 m2 0)), v) acc) ->
+  exists v, In ((Z.min (znth i1 m1 0) (znth i2 m2 0), Z.max (znth i1 m1 0) (znth i2 m2 0)), v) (fold_left (pw_step m1 m2) pairs acc).
+Proof.
+  induction pairs as [|[j1 j2] ps IH]; intros acc i1 i2 H; cbn [fold_left].
+  - destruct H as [[]|H]. exact H.
+  - apply IH. destruct H as [[E|H]|[v H]].
+    + injection E as -> ->. right. unfold pw_step, src_pair_key_lo, src_pair_key_hi. apply pmap_insert_has_key.
+    + left. exact H.
+    + right. exists v. unfold pw_step. apply pmap_insert_keeps. exact H.
+Qed.
+
+Lemma make_pairwise_unfold m1 m2 :
+  make_pairwise m1 m2 =
+  map (fun '(_, (i1, i2)) => (znth i1 m1 0, znth i2 m2 0))
+      (fold_left (pw_step m1 m2) (flat_map (fun i1 => map (fun i2 => (i1, i2)) (zseq (zlen m2))) (zseq (zlen m1))) []).
+Proof. reflexivity. Qed.
+
+Lemma znth_In (i : Z) (l : list Z) : 0 <= i < zlen l -> In (znth i l 0) l.
+Proof. intro H. unfold znth. apply nth_In. unfold zlen in H. lia. Qed.
+
+(* every generated pair takes its first source from list 1 and its second source from list 2 *)
+Lemma make_pairwise_sources m1 m2 a b : In (a, b) (make_pairwise m1 m2) -> In a m1 /\ In b m2.
+Proof.
+  rewrite make_pairwise_unfold. intros H. apply in_map_iff in H. destruct H as ([k [i1 i2]] & E & He).
+  injection E as <- <-.
+  assert (Hall : Forall (pw_entry_ok m1 m2)
+            (fold_left (pw_step m1 m2) (flat_map (fun i1 => map (fun i2 => (i1, i2)) (zseq (zlen m2))) (zseq (zlen m1))) [])).
+  { apply pw_fold_ok; [|constructor]. apply Forall_forall. intros [j1 j2] Hj. apply in_flat_map in Hj. destruct Hj as (x & Hx & Hj).
+    apply in_map_iff in Hj. destruct Hj as (y & E & Hy). injection E as <- <-. apply zseq_in in Hx, Hy. cbn. lia. }
+  rewrite Forall_forall in Hall. specialize (Hall _ He). cbn in Hall. destruct Hall as (H1 & H2 & _).
+  split; apply znth_In; assumption.
+Qed.
+
+(* and every unordered pair {a, b} with a in list 1, b in list 2 is generated (as some pair with the same min / max) *)
+Lemma make_pairwise_complete m1 m2 a b : In a m1 -> In b m2 ->
+  exists a' b', In (a', b') (make_pairwise m1 m2) /\ Z.min a' b' = Z.min a b /\ Z.max a' b' = Z.max a b.
+Proof.
+  intros Ha Hb. apply (In_nth _ _ 0) in Ha, Hb. destruct Ha as (n1 & L1 & E1). destruct Hb as (n2 & L2 & E2).
+  set (i1 := Z.of_nat n1). set (i2 := Z.of_nat n2).
+  assert (Z1 : znth i1 m1 0 = a) by (unfold znth, i1; rewrite Nat2Z.id; exact E1).
+  assert (Z2 : znth i2 m2 0 = b) by (unfold znth, i2; rewrite Nat2Z.id; exact E2).
+  destruct (pw_fold_has_key m1 m2 (flat_map (fun i1 => map (fun i2 => (i1, i2)) (zseq (zlen m2))) (zseq (zlen m1))) [] i1 i2) as [[j1 j2] Hv].
+  { left. apply in_flat_map. exists i1. split; [apply zseq_in; unfold zlen, i1; lia|].
+    apply in_map_iff. exists i2. split; [reflexivity|apply zseq_in; unfold zlen, i2; lia]. }
+  assert (Hall : Forall (pw_entry_ok m1 m2)
+            (fold_left (pw_step m1 m2) (flat_map (fun i1 => map (fun i2 => (i1, i2)) (zseq (zlen m2))) (zseq (zlen m1))) [])).
+  { apply pw_fold_ok; [|constructor]. apply Forall_forall. intros [k1 k2] Hj. apply in_flat_map in Hj. destruct Hj as (x & Hx & Hj).
+    apply in_map_iff in Hj. destruct Hj as (y & E & Hy). injection E as <- <-. apply zseq_in in Hx, Hy. cbn. lia. }
+  rewrite Forall_forall in Hall. pose proof (Hall _ Hv) as Hok. cbn in Hok. destruct Hok as (_ & _ & Hk).
+  exists (znth j1 m1 0), (znth j2 m2 0). split.
+  - rewrite make_pairwise_unfold. apply in_map_iff. eexists. split; [|exact Hv]. reflexivity.
+  - rewrite Z1, Z2 in Hk. injection Hk as K1 K2. split; congruence.
+Qed.
